@@ -246,6 +246,74 @@ def job_family(_):
     return {"evaluations": ev, "issues": issues, "family_distinct_hashes": hashes, "hash_spread": spread}
 
 
+CROSS_PATHS = [("s", ("i", "a")), ("s", ("a", "a")), ("s", ("i", "a"), ("i", 0)), ("s", ("i", "n"), ("a", "x"), ("i", -1)),
+               ("s", ("i", (1, 2))), ("s", ("i", 0.5)), ("t", ("i", "a']['b")), ("t", ("a", "\u00b5"), ("i", "k"))]
+
+
+def _cross_build():
+    import xdeps
+    m = xdeps.Manager()
+    roots = {"s": m.ref({}, "s"), "t": m.ref({}, "t")}
+    rs = [build(roots, p) for p in CROSS_PATHS]
+    exprs = [rs[0] + rs[1], rs[2] * 2 - rs[3], abs(rs[4]), -rs[5]]
+    return m, rs + exprs
+
+
+def crossproc_child(path):
+    """runs in ANOTHER interpreter (different hash seed): refs restored from a pickle must equal, hash like and be found by
+    refs built afresh here"""
+    import pickle
+    import sys
+    with open(path, "rb") as fh:
+        restored = pickle.load(fh)
+    m, fresh = _cross_build()
+    bad = []
+    for a, b in zip(restored, fresh):
+        if not (a == b):
+            bad.append(f"restored {a!r} != fresh {b!r}")
+        elif hash(a) != hash(b):
+            bad.append(f"restored and fresh {a!r} are equal but hash differently")
+        elif {a: 1}.get(b) != 1:
+            bad.append(f"a fresh {b!r} does not find the restored one in a dictionary")
+    print("CROSSPROC " + ("OK" if not bad else "BAD " + " | ".join(bad[:3])))
+    sys.exit(0)
+
+
+def job_crossproc(_):
+    """pickle written under this interpreter's hash seed, read under another one"""
+    import os
+    import pickle
+    import subprocess
+    import sys
+    import tempfile
+    m, objs = _cross_build()
+    issues = []
+    d = tempfile.mkdtemp(prefix="c06x-", dir=os.environ.get("XV_SCRATCH_DIR", "/var/tmp"))
+    fn = os.path.join(d, "refs.pkl")
+    ev = 0
+    try:
+        with open(fn, "wb") as fh:
+            pickle.dump(objs, fh)
+        mine = int(os.environ.get("PYTHONHASHSEED", "0") or 0)
+        for other in (mine + 101, mine + 7):
+            env = dict(os.environ)
+            env["PYTHONHASHSEED"] = str(other)
+            p = subprocess.run([sys.executable, "-c", f"from xv.props import c06; c06.crossproc_child({fn!r})"],
+                               env=env, capture_output=True, text=True, cwd=os.getcwd())
+            ev += len(objs)
+            line = next((l for l in p.stdout.splitlines() if l.startswith("CROSSPROC")), None)
+            if line != "CROSSPROC OK":
+                issues.append({"kind": "violation", "property": "C06", "finding": None, "config": {},
+                               "what": f"refs pickled under hash seed {mine} and restored under hash seed {other}: "
+                                       f"{line or ('child failed: ' + p.stderr[-300:])}",
+                               "program": ["pickle.dump(refs) in one interpreter", f"pickle.load in another (PYTHONHASHSEED={other}); compare with fresh refs"],
+                               "case": {"crossproc": True}})
+    finally:
+        import shutil
+        shutil.rmtree(d, ignore_errors=True)
+    return {"evaluations": ev, "issues": issues}
+
+
 def plan(tier, seed):
     return {"level": LEVEL,
             "jobs": [{"name": "paths", "mode": "compiled", "hashseed": seed % 2 ** 32, "nproc": 14, "timeout": 3000,
@@ -263,7 +331,7 @@ def run_job(job):
     chunks = E.chunked(rows, max(1, n // (job.get("nproc", 1) * 8)))
     r = E.pmap(job_pairs, chunks, job.get("nproc", 1))
     out = {"pairs": r["evaluations"], "eq_true": r.get("eq_true", 0), "paths": n, "issues": r["issues"], "wall_s": r["wall_s"]}
-    for name, fn in (("dicts", job_dicts), ("exprs", job_exprs), ("family", job_family)):
+    for name, fn in (("dicts", job_dicts), ("exprs", job_exprs), ("family", job_family), ("crossproc", job_crossproc)):
         x = fn(None)
         out["issues"].extend(x.pop("issues"))
         out[name] = x
@@ -272,7 +340,8 @@ def run_job(job):
 
 def finish(plan_, results):
     r = results[0]
-    cov = {"evaluations": r["pairs"] + r["dicts"]["evaluations"] + r["exprs"]["evaluations"] + r["family"]["evaluations"],
+    cov = {"evaluations": r["pairs"] + r["dicts"]["evaluations"] + r["exprs"]["evaluations"] + r["family"]["evaluations"] + r["crossproc"]["evaluations"],
+           "refs_restored_under_another_hash_seed": r["crossproc"]["evaluations"],
            "distinct_nontrivial": r["paths"] + r["exprs"]["distinct_texts"],
            "paths": r["paths"], "pairs_compared": r["pairs"], "pairs_equal": r["eq_true"],
            "dict_entries": r["dicts"]["dict_size"], "expression_trees_built_twice": r["exprs"]["evaluations"],
@@ -297,7 +366,9 @@ def replay(issue):
         same = p1 == p2
         bad = (a == b) != same or (same and hash(a) != hash(b)) or ({a: 1}.get(b) == 1) != same
         return {"still_fails": bool(bad), "what": f"{a!r} vs {b!r}: == {a == b}, hash equal {hash(a) == hash(b)}"}
-    if "expr" in case:
+    if case.get("crossproc"):
+        r = job_crossproc(None)
+    elif "expr" in case:
         r = job_exprs(None)
     else:
         r = job_family(None)
